@@ -456,11 +456,13 @@ class Ctx(object):
             out = '(ECons %s %s)' % (t, out)
         return out
 
-    def hidden_like(self, el):
-        """Model-only temporary with the structure of el (e.g. the element returned by one())."""
+    def hidden_like(self, el, values=None):
+        """Model-only element with the structure of el: a temporary (e.g. the element returned by one()),
+        or, with `values` (list of leaf arrays, consumed in order), the element the implementation
+        builds from an array-like operand."""
         import odl
         if _is_pse(el):
-            ts = [self.hidden_like(p) for p in el.parts]
+            ts = [self.hidden_like(p, values) for p in el.parts]
             out = 'ENil'
             for t in reversed(ts):
                 out = '(ECons %s %s)' % (t, out)
@@ -468,7 +470,10 @@ class Ctx(object):
         t = el.tensor if _is_dse(el) else el
         self.objs.append(None)
         kind = complex if t.data.dtype.kind == 'c' else float
-        self.init.append(np.full(t.data.shape, np.nan if self.poison else 0, dtype=kind))
+        if values is not None:
+            self.init.append(np.array(values.pop(0), dtype=kind).reshape(t.data.shape))
+        else:
+            self.init.append(np.full(t.data.shape, np.nan if self.poison else 0, dtype=kind))
         self.flags.append((True, t.data.ndim <= 1))
         self.bdt.append(DT[str(t.data.dtype)][2])
         return '(Leaf %d)' % (len(self.objs) - 1)
@@ -517,10 +522,10 @@ def space_case(rng, recipe, op, poison=False, special=False):
     if bases == {'int'}:
         scs = [0, 1, -1, 2, 3, 0.5, 2.5]
     kind = 'div' if 'div' in op else ('pow' if op == 'ipow' else 'any')
-    x = mk_element(rng, recipe, 'pow' if op == 'ipow' else ('div' if op == 'divide' else 'any'))
+    x = mk_element(rng, recipe, 'pow' if op == 'ipow' else ('div' if op in ('divide', 'ipow_neg') else 'any'))
     same = rng.random() < 0.2
     y = x if same else mk_element(rng, recipe, kind, share=(x if (kind == 'any' and rng.random() < 0.25) else None))
-    if op in ('itruediv', 'truediv', 'divide') and same:
+    if op in ('itruediv', 'truediv', 'divide', 'el_divide', 'truediv_arr', 'divide_noout') and same:
         x = y = mk_element(rng, recipe, 'div')
     if op == 'rtruediv':
         x = mk_element(rng, recipe, 'div')
@@ -642,6 +647,47 @@ def space_case(rng, recipe, op, poison=False, special=False):
                     wop = 'WCopyLeaf %s %s' % (tx.split()[1].rstrip(')'), ctx.term(res, True).split()[1].rstrip(')'))
                 else:
                     wop = '%s %s %s' % ('WNeg' if op == 'neg' else 'WPos', tx, ctx.term(res, True))
+            elif op in ('add_arr', 'iadd_arr', 'sub_arr', 'rsub_arr', 'mul_arr', 'imul_arr', 'truediv_arr'):
+                # array-like operand: the operator builds space.element(other) and calls itself again
+                def nested(el):
+                    if _is_pse(el):
+                        return [nested(pp) for pp in el.parts]
+                    return np.asarray(el).tolist()
+                arr = nested(y)
+                leaves_y = [np.array(t.data, copy=True) for t in leaf_tensors(y)]
+                th = ctx.hidden_like(y, leaves_y)
+                f = {'add_arr': lambda: x + arr, 'iadd_arr': lambda: x.__iadd__(arr), 'sub_arr': lambda: x - arr,
+                     'rsub_arr': lambda: arr - x, 'mul_arr': lambda: x * arr, 'imul_arr': lambda: x.__imul__(arr),
+                     'truediv_arr': lambda: x / arr}[op]
+                res = f()
+                nm = {'add_arr': 'WAdd', 'iadd_arr': 'WIAdd', 'sub_arr': 'WSub', 'rsub_arr': 'WRSub', 'mul_arr': 'WMul',
+                      'imul_arr': 'WIMul', 'truediv_arr': 'WTrueDiv'}[op]
+                if op.startswith('i'):
+                    assert res is x
+                    wop = '%s %s %s' % (nm, tx, th)
+                else:
+                    wop = '%s %s %s %s' % (nm, tx, th, ctx.term(res, True))
+            elif op in ('el_lincomb', 'multiply_noout', 'divide_noout', 'el_multiply', 'el_divide'):
+                if op == 'el_lincomb':          # x.lincomb(a, y, b, z): out = self
+                    a, b = rng.choice(CX_PAIRS if cxs else (INT_PAIRS[:11] if bases == {'int'} else REAL_PAIRS))
+                    z2 = mk_element(rng, recipe, 'any')
+                    tz2 = ctx.term(z2)
+                    res = x.lincomb(a, y, b, z2)
+                    assert res is x
+                    wop = 'WLincomb2 %s %s %s %s %s' % (cl(a), ty, cl(b), tz2, tx)
+                elif op in ('multiply_noout', 'el_multiply'):
+                    res = space.multiply(x, y) if op == 'multiply_noout' else x.multiply(y)
+                    wop = 'WMultiply %s %s %s' % (tx, ty, ctx.term(res, True))
+                else:
+                    res = space.divide(x, y) if op == 'divide_noout' else x.divide(y)
+                    wop = 'WDivide %s %s %s' % (tx, ty, ctx.term(res, True))
+            elif op == 'ipow_neg':
+                pw = rng.randint(1, 3)
+                desc['p'] = -pw
+                res = x.__ipow__(-pw)
+                assert res is x
+                wop = 'WIPowNeg %s %s %d %s %s %s' % (C.b(_is_pse(x)), tx, pw, ctx.hidden_like(x), ctx.hidden_like(x),
+                                                      ctx.hidden_like(x))
             elif op == 'ipow':
                 pw = rng.randint(0, 6)
                 desc['p'] = pw
@@ -662,6 +708,10 @@ def space_case(rng, recipe, op, poison=False, special=False):
         nm = {'itruediv': 'WITrueDiv %s %s' % (tx, ty), 'truediv': 'WTrueDiv %s %s %s' % (tx, ty, ctx.hidden_like(x)),
               'rtruediv': 'WRTrueDiv %s %s %s' % (tx, ty, ctx.hidden_like(x)),
               'rtruediv_s': 'WRTrueDivS %s %s %s' % (tx, cl(c), ctx.hidden_like(x)),
+              'truediv_arr': 'WTrueDiv %s %s %s' % (tx, ty, ctx.hidden_like(x)),
+              'divide_noout': 'WDivide %s %s %s' % (tx, ty, ctx.hidden_like(x)),
+              'el_divide': 'WDivide %s %s %s' % (tx, ty, ctx.hidden_like(x)),
+              'ipow_neg': 'WDivide %s %s %s' % (tx, tx, tx),
               'divide': 'WDivide %s %s %s' % (tx, ty, tx)}
         if op not in nm:
             raise AssertionError('unexpected casting error in %s' % op)
@@ -730,7 +780,9 @@ def bcast_case(rng, child, n, k, inplace, poison=False):
 OPS = ['lincomb2', 'lincomb1', 'multiply', 'divide', 'assign', 'set_zero', 'copy',
        'iadd', 'isub', 'imul', 'itruediv', 'add', 'sub', 'mul', 'truediv', 'rsub', 'rtruediv',
        'iadd_s', 'isub_s', 'imul_s', 'itruediv_s', 'add_s', 'radd_s', 'sub_s', 'rsub_s', 'mul_s', 'rmul_s',
-       'truediv_s', 'rtruediv_s', 'neg', 'pos', 'ipow']
+       'truediv_s', 'rtruediv_s', 'neg', 'pos', 'ipow', 'ipow_neg',
+       'add_arr', 'iadd_arr', 'sub_arr', 'rsub_arr', 'mul_arr', 'imul_arr', 'truediv_arr',
+       'el_lincomb', 'multiply_noout', 'divide_noout', 'el_multiply', 'el_divide']
 
 
 def rand_recipe(rng, base, depth):
@@ -765,12 +817,14 @@ def space_cases(rng, tier, S):
         recipes.append(rand_recipe(rng, rng.choice(['real', 'real', 'cx', 'int', 'mixed']), rng.randint(1, 3)))
     reps = 1 if quick else 3
     for r in recipes:
+        bases = set(DT[l[1]][0] for l in leaf_recipes(r))
         for op in OPS:
+            if op == 'ipow_neg' and 'int' in bases:
+                continue            # integers to negative powers raise (not an arithmetic result)
             for _ in range(reps):
                 S.put('sp', 'x', space_case(rng, r, op), CHECKW, 'caseW %s')
-        bases = set(DT[l[1]][0] for l in leaf_recipes(r))
         if 'int' not in bases:
-            for op in (OPS if not quick else rng.sample(OPS, 12)):
+            for op in (OPS if not quick else rng.sample(OPS, 14)):
                 S.put('sp', 'x', space_case(rng, r, op, poison=True), CHECKW, 'caseW %s')
     # zeros / inf / nan in operands of the multiply / divide family (IEEE result at every entry,
     # non-finite = None at the poisoned carrier), old contents of explicit outputs NaN or finite
